@@ -130,22 +130,22 @@ func c06Check(k c06Kind) {
 	vpCover("reached")
 }
 
-func H_C06_arg_module_description()  { c06Check(c06Kinds[0]) }
-func H_C06_arg_module_contact()      { c06Check(c06Kinds[1]) }
-func H_C06_arg_module_organization() { c06Check(c06Kinds[2]) }
-func H_C06_arg_module_reference()    { c06Check(c06Kinds[3]) }
-func H_C06_arg_leaf_description()    { c06Check(c06Kinds[4]) }
-func H_C06_arg_leaf_reference()      { c06Check(c06Kinds[5]) }
-func H_C06_arg_leaf_units()          { c06Check(c06Kinds[6]) }
-func H_C06_arg_typedef_units()       { c06Check(c06Kinds[7]) }
-func H_C06_arg_leaf_default()        { c06Check(c06Kinds[8]) }
-func H_C06_arg_leaf_when()           { c06Check(c06Kinds[9]) }
-func H_C06_arg_leaf_must()           { c06Check(c06Kinds[10]) }
-func H_C06_arg_error_message()       { c06Check(c06Kinds[11]) }
-func H_C06_arg_error_app_tag()       { c06Check(c06Kinds[12]) }
-func H_C06_arg_presence()            { c06Check(c06Kinds[13]) }
-func H_C06_arg_extension()           { c06Check(c06Kinds[14]) }
-func H_C06_arg_enum_description()    { c06Check(c06Kinds[15]) }
+func H_C06_arg_module_description()   { c06Check(c06Kinds[0]) }
+func H_C06_arg_module_contact()       { c06Check(c06Kinds[1]) }
+func H_C06_arg_module_organization()  { c06Check(c06Kinds[2]) }
+func H_C06_arg_module_reference()     { c06Check(c06Kinds[3]) }
+func H_C06_arg_leaf_description()     { c06Check(c06Kinds[4]) }
+func H_C06_arg_leaf_reference()       { c06Check(c06Kinds[5]) }
+func H_C06_arg_leaf_units()           { c06Check(c06Kinds[6]) }
+func H_C06_arg_typedef_units()        { c06Check(c06Kinds[7]) }
+func H_C06_arg_leaf_default()         { c06Check(c06Kinds[8]) }
+func H_C06_arg_leaf_when()            { c06Check(c06Kinds[9]) }
+func H_C06_arg_leaf_must()            { c06Check(c06Kinds[10]) }
+func H_C06_arg_error_message()        { c06Check(c06Kinds[11]) }
+func H_C06_arg_error_app_tag()        { c06Check(c06Kinds[12]) }
+func H_C06_arg_presence()             { c06Check(c06Kinds[13]) }
+func H_C06_arg_extension()            { c06Check(c06Kinds[14]) }
+func H_C06_arg_enum_description()     { c06Check(c06Kinds[15]) }
 func H_C06_arg_revision_description() { c06Check(c06Kinds[16]) }
 
 // scalar properties and identifiers read back as written; siblings keep textual order
